@@ -426,12 +426,34 @@ def main(argv):
             rp = json.load(open(a.replay if os.path.exists(a.replay) else os.path.join(VERIF, a.replay)))
             seed, tier = int(rp.get("seed", seed)), rp.get("tier", tier)
         ck = Check(pid, tier, seed, rp)
-        if a.part:
-            mod.run_part(ck)
-        else:
-            mod.run(ck)
-            for part in getattr(mod, "PARTS", []):
-                importlib.import_module("props.%s_%s" % (pid.lower(), part)).run_part(ck)
+        try:
+            if a.part:
+                mod.run_part(ck)
+            else:
+                mod.run(ck)
+                for part in getattr(mod, "PARTS", []):
+                    importlib.import_module("props.%s_%s" % (pid.lower(), part)).run_part(ck)
+        except (Infra, subprocess.TimeoutExpired, KeyboardInterrupt, MemoryError):
+            raise
+        except Exception as e:
+            # The exploration itself died.  On the unchanged tree this never happens (every check is run with
+            # several seeds before it is registered), so it is the code under test that behaved in a way the
+            # harness did not foresee: the correspondence no longer checks.  When the exception was raised
+            # inside nfcpy it is a concrete failing execution (the seed/tier in the replay reproduce it).
+            tb = traceback.extract_tb(e.__traceback__)
+            srcdir = os.path.join(REPO, "src") + os.sep
+            inner = tb[-1].filename if tb else ""
+            text = traceback.format_exc()
+            print(text)
+            frames = ["%s:%d %s" % (os.path.relpath(f.filename, REPO) if f.filename.startswith(REPO) else
+                                    os.path.relpath(f.filename, VERIF), f.lineno, f.name) for f in tb[-8:]]
+            if inner.startswith(srcdir) and exc_name(e) in INTERNAL:
+                ck.fail("uncaught-internal-exception-%s" % type(e).__name__,
+                        "%s raised inside nfcpy (%s) ended the exploration: %s" % (type(e).__name__, frames[-1], e),
+                        {"exception": repr(e), "frames": frames})
+            else:
+                ck.fail("tie:exploration-aborted", "the harness could not complete the correspondence run: %s: %s"
+                        % (type(e).__name__, e), {"exception": repr(e), "frames": frames})
         return ck.finish()
     except Infra as e:
         print("INFRASTRUCTURE FAILURE (%s): %s" % (pid, e))
